@@ -1,7 +1,7 @@
 (* C20 - wire codecs: the property theorems, nothing else.  Each is closed by [exact] of a lemma proved in
    Codec/*.v and followed by Print Assumptions.  Bytes are Z values; payloads are arbitrary lists. *)
 From Icv Require Import Base.Tac Codec.NsModel Codec.NsDecimal Codec.NsProofs Codec.NsStreamProofs
-  Codec.JsModel Codec.JsProofs Codec.CodecOracle Codec.CodecOracleProofs Facts.Facts_c20.
+  Codec.JsModel Codec.JsProofs Codec.JsRoundtrip Codec.CodecOracle Codec.CodecOracleProofs Facts.Facts_c20.
 Local Open Scope Z_scope.
 
 (* ---- netstring, StreamReadContext variant (state file, replay log, objects file) ---- *)
@@ -119,20 +119,37 @@ Theorem C20_json_hex4 : forall x rest, 0 <= x < 65536 -> js_unhex4 (js_hex4 x ++
 Proof. exact js_unhex4_hex4. Qed.
 Print Assumptions C20_json_hex4.
 
-(* the round trip for strings and dictionary keys over ALL of Unicode (control characters, quote, backslash, DEL,
-   non-ASCII as \uXXXX, astral planes as surrogate pairs): what JsonEncoder::Strng writes, followed by anything,
-   is lexed back to the same bytes and the lexer stops right behind the closing quote.
-   This is the part of "js_decode (js_encode v) = Some v" that is proved; the composition over numbers, arrays and
-   dictionaries (token-level lemmas for js_lex_num / js_pval) is NOT proved - hence _partial.  It is exercised by
-   the correspondence run (real JsonDecode(JsonEncode(v)) = v on every generated value). *)
-Theorem C20_json_roundtrip_partial : forall cps more f,
-  Forall js_scalar cps -> (length cps < f)%nat ->
-  match js_quote (js_utf8_of cps) ++ more with
-  | q :: body => q = 34 /\ js_lex_str f body [] = Some (js_utf8_of cps, more)
-  | [] => False
-  end.
-Proof. exact js_string_roundtrip. Qed.
-Print Assumptions C20_json_roundtrip_partial.
+(* C20 for values: the receiver decodes a value equal to the sender's.  For ALL values of the data model -
+   null, booleans, integers up to 2^53 (JsNum), other finite doubles (JsFlt), strings and keys of well-formed UTF-8
+   over all of Unicode, arrays, key-sorted duplicate-free dictionaries - nested no deeper than the limit of the decoder.
+   binary64 printing (nlohmann Grisu2) and parsing (strtod + isfinite) are parameters of the model; what is assumed
+   about them are the three premises below (parse inverts print; what is printed is one JSON number token that is
+   not an integer literal; it is ASCII and starts with '-' or a digit).  They are exhibited on every generated
+   double by the correspondence run, not proved. *)
+Theorem C20_json_roundtrip :
+  forall (js_flt : Type) (js_fprint : js_flt -> list Z) (js_fparse : list Z -> option js_flt) (js_lim : option Z),
+  (forall x, js_fparse (js_fprint x) = Some x) ->
+  (forall x rest, match rest with [] => True | b :: _ => b = 44 \/ b = 93 \/ b = 125 end ->
+                  js_lex_num (js_fprint x ++ rest) = Some (js_fprint x, false, rest)) ->
+  (forall x, exists b t, js_fprint x = b :: t /\ (b = 45 \/ 48 <= b <= 57) /\ Forall (fun c => 0 <= c < 128) (b :: t)) ->
+  forall v : js_value js_flt,
+  js_wf js_flt v -> js_sorted js_flt v -> js_fits js_flt js_lim 0 v ->
+  js_decode js_flt js_fparse js_lim (js_encode js_flt js_fprint v) = Some v.
+Proof. exact js_roundtrip. Qed.
+Print Assumptions C20_json_roundtrip.
+
+(* without any hypothesis: values whose numbers are integers up to 2^53 (no JsFlt: the float type is empty) *)
+Theorem C20_json_roundtrip_integers : forall (js_lim : option Z) (v : js_value Empty_set),
+  js_wf _ v -> js_sorted _ v -> js_fits _ js_lim 0 v ->
+  js_decode Empty_set (fun _ => None) js_lim (js_encode Empty_set (fun x => match x with end) v) = Some v.
+Proof. exact js_roundtrip_integers. Qed.
+Print Assumptions C20_json_roundtrip_integers.
+
+(* the property's quantifier (nesting to depth 64) is inside the decoder's limit as it stands in the source *)
+Theorem C20_json_depth64_fits : forall (js_flt : Type) (v : js_value js_flt),
+  js_depth _ v <= 64 -> js_fits _ f_js_max_depth 0 v.
+Proof. exact js_depth64_fits. Qed.
+Print Assumptions C20_json_depth64_fits.
 
 (* the nesting limit of JsonDecode as it stands in the source now (regenerated fact): the property's own round-trip
    quantifier (nesting to depth 64) lies inside it.  (None = the guard is not in the source: no limit in the model.) *)
